@@ -41,7 +41,9 @@ var hrefPool = []string{"http://example.com/", "https://a.b/c", "//cdn.x/y", "/l
 	// encoded slashes plus a character net/url re-encodes: re-serialisation may turn a local path into a host
 	"/%2Fevil.com/^", "/%2fevil.com/\u00e9", "%2F%2Fevil.com/|", "http:/%2Fevil.com/^", "/%2Fevil.com\"", "/%2F/evil.com/{}", "/a/..%2F%2Fb^",
 	// hrefs net/url rejects
-	"http://example.com/sale-100%", "http://example.com/%zz", "https://a.b/\x7f", "//cdn.x/%", "/local/100%"}
+	"http://example.com/sale-100%", "http://example.com/%zz", "https://a.b/\x7f", "//cdn.x/%", "/local/100%",
+	// surrounded by spaces / holding tab or newline: the URL parser of a browser removes them first
+	" //padded.example/", "  //padded.example/x ", "\t//tab.example/", "/\t/tab.example/", "//new\nline.example/", " /local ", "\n//nl.example/"}
 var targetPool = []string{"_blank", "_self", "foo", "_BLANK", "", "_blank ", "_top"}
 
 func genC11(t *rapid.T) *Case {
@@ -68,6 +70,17 @@ func genC11(t *rapid.T) *Case {
 	if rapid.IntRange(0, 4).Draw(t, "targetRule") == 0 {
 		spec.Ops[0].Attrs = []string{"href", "id"}
 		spec.Ops = append(spec.Ops, Op{Kind: "AllowAttrs", Attrs: []string{"target"}, Scope: "els", Names: []string{"a", "area"}, ValRe: 16})
+	}
+	if rapid.IntRange(0, 4).Draw(t, "hrefGlobal") == 0 {
+		// href reaches the link elements through a global rule only; their own rules name other attributes
+		var rest []string
+		for _, a := range spec.Ops[0].Attrs {
+			if a != "href" {
+				rest = append(rest, a)
+			}
+		}
+		spec.Ops[0].Attrs = rest
+		spec.Ops = append(spec.Ops, Op{Kind: "AllowAttrs", Attrs: []string{"href"}, Scope: "global", ValRe: -1})
 	}
 	spec.Ops = append(spec.Ops, nr(Op{Kind: "AllowURLSchemes", Names: []string{"http", "https", "mailto"}}), nr(Op{Kind: "AllowRelativeURLs", B: true}))
 	optKinds := []string{"RequireNoFollowOnLinks", "RequireNoFollowOnFullyQualifiedLinks", "RequireNoReferrerOnLinks", "RequireNoReferrerOnFullyQualifiedLinks", "AddTargetBlankToFullyQualifiedLinks"}
@@ -290,7 +303,13 @@ var sbToks = append([]string{"allow-nothing", "ALLOW-SCRIPTS", "allow-scripts;",
 func genC12(t *rapid.T) *Case {
 	spec := genSpec(t, &SpecOpts{MaxOps: 6})
 	els := []string{"img", "audio", "video", "link", "iframe", "script"}
-	spec.Ops = append(spec.Ops, Op{Kind: "AllowAttrs", Attrs: []string{"src", "crossorigin", "sandbox", "id"}, ValRe: -1, Scope: "els", Names: els})
+	spec.Ops = append(spec.Ops, Op{Kind: "AllowAttrs", Attrs: []string{"src", "href", "crossorigin", "sandbox", "id"}, ValRe: -1, Scope: "els", Names: els})
+	if rapid.IntRange(0, 2).Draw(t, "linkOpt") == 0 {
+		// link is also one of the elements the rel / target hardening works on: the two passes over
+		// the same attribute list must not get in each other's way
+		spec.Ops = append(spec.Ops, Op{Kind: "AllowURLSchemes", Names: []string{"http", "https"}, ValRe: -1},
+			Op{Kind: rapid.SampledFrom([]string{"RequireNoFollowOnLinks", "RequireNoFollowOnFullyQualifiedLinks", "RequireNoReferrerOnLinks", "RequireNoReferrerOnFullyQualifiedLinks", "AddTargetBlankToFullyQualifiedLinks"}).Draw(t, "linkOptKind"), B: true, ValRe: -1})
+	}
 	if rapid.IntRange(0, 3).Draw(t, "co") != 0 {
 		spec.Ops = append(spec.Ops, Op{Kind: "RequireCrossOriginAnonymous", B: true, ValRe: -1})
 	}
@@ -328,7 +347,9 @@ func genC12(t *rapid.T) *Case {
 		}
 		k := rapid.IntRange(0, 4).Draw(t, "nattr")
 		for j := 0; j < k; j++ {
-			switch rapid.IntRange(0, 3).Draw(t, "which") {
+			switch rapid.IntRange(0, 4).Draw(t, "which") {
+			case 4:
+				attrs = append(attrs, `href="http://example.com/s.css"`)
 			case 0:
 				attrs = append(attrs, quotedAttr("crossorigin", rapid.SampledFrom(coVals).Draw(t, "cov")))
 			case 1:
